@@ -170,3 +170,12 @@ PROPS["C15"] = {
     "not_proved": "mime.ParseMediaType's normalisation (case, white space, parameters) is the Go standard library's: an oracle here",
     "assumptions": COMMON_ASSUME + ["mime.ParseMediaType is the normaliser the property refers to"],
 }
+
+PROPS["C04"] = {
+    "channels": [{"cmd": "run-c04", "driver": False, "shards": 1}, {"cmd": "run-json"}],
+    "cone": r"^MISMATCH (json|json-fuel|ndjson|harness|driver)",
+    "rule": "reference: each of ~55 (input, limit) pairs detected alone in a fresh child process; then 40 (thorough 1500) single-goroutine histories of 2-30 detections (geojson/har/gltf after aborted deep parses, 9 kB documents, cut documents, CSV of width 7 then 2, ragged and quoted CSV, NDJSON, HTML/XML) with dirty recycled parser states injected through the hook, 8 goroutines detecting concurrently, bytes beyond the limit inverted; every result must equal the reference; the caller's buffer and 32 bytes of spare capacity are hashed before and after; json channel: Parse with all four queries after injecting dirty states vs the pure model",
+    "proved": "reset erases every field a scan reads; Parse on any recycled state = Parse on a fresh state of the same cap; history_pure for every op list and pool behaviour under the pool invariant (cap constant)",
+    "not_proved": "immutability of the caller's buffer and the bufio.Reader pool are established on the implementation only",
+    "assumptions": COMMON_ASSUME + ["sync.Pool.Get returns a previously Put value or New()", "bufio.Reader.Reset discards all state"],
+}
